@@ -118,7 +118,8 @@ def generate(ctx):
         for t in TYPES_MAIN:
             cand.append(p + t)
     if not quick:   # depth 3: every path, alternately without and with type alternatives
-        for i, p in enumerate(_with_trailing([q for q in _paths(atoms, 3) if q not in set(_paths(atoms, 2))])):
+        a3 = LIT + ENUM + ALT[:2]
+        for i, p in enumerate(_with_trailing([q for q in _paths(a3, 3) if q not in set(_paths(a3, 2))])):
             cand.append(p + TYPES_MAIN[i % 2])
     if quick:       # a slice of depth 3: enumeration / alternatives between literals, '/' followed by more pattern
         for p in QUICK_DEPTH3:
@@ -127,11 +128,11 @@ def generate(ctx):
     for p in TYPE_PATHS:
         for t in TYPES_ALL:
             cand.append(p + t)
-    cand += _random_patterns(12 if quick else 160, ctx.seed, LIT + ENUM + ALT, 4, 6)
+    cand += _random_patterns(12 if quick else 64, ctx.seed, LIT + ENUM + ALT, 4, 6)
     # known finding family: prefix alternatives in a few contexts
     kfc = []
     ctxs = (("", ""), ("", "b"), ("a", "/:i")) if quick else \
-        list(itertools.product(["", "a", "#2", "/"], ["", "b", "c", "/", "#2", "b:i:f", "{a,b}"]))
+        (("", ""), ("", "b"), ("a", "/:i"), ("", "c:i:f"), ("#2", "b"), ("/", "/"), ("a", "#2"), ("", "{a,b}"), ("b", "ab/"))
     for a in ALT_KF:
         for pre, post in ctxs:
             kfc.append(pre + a + post)
@@ -282,6 +283,8 @@ def match_obligations(ctx, normal, kfs):
         b = kfs[i:i + kb]
         for al in kal:
             for part in (0, 1):
+                if part == 1 and not (i // kb < 3 and al <= 3):
+                    continue    # the signature-only obligations FAIL while the finding stands (each costs a trace + a native replay): a few suffice
                 d = dict(src_defines(ctx), C05_PATS=",".join(cstr(p) for p in b), C05_NPAT=str(len(b)), C05_AL=str(al),
                          C05_KFGROUP="1", C05_PART=str(part))
                 name = ("C05.match.kf%02d.al%d" if part == 0 else "C05.prefix_alt.kf%02d.al%d") % (i // kb + 1, al)
